@@ -2,21 +2,25 @@
 # usage: confirm_seed.sh <ID> <mN>  — independently confirms a seeded defect in the scratch worktree /tmp/wt-<ID>:
 #   (1) demo passes without patch, (2) demo fails with patch, (3) pinned suite passes with patch.
 # Writes /tmp/mutout/<ID>/<mN>/confirm.txt
-ID=$1; M=$2; WT=/tmp/wt-$ID; D=/tmp/mutout/$ID/$M; OUT=$D/confirm.txt
+ID=$1; M=$2; WT=${WT:-/tmp/wt-$ID}; D=/tmp/mutout/$ID/$M; OUT=$D/confirm.txt
 cd $WT || exit 2
+FEAT=""; case " C16 C17 C18 C19 " in *" $ID "*) FEAT="--features security";; esac
 git checkout -q -- . && git clean -fdq -e target
-names=$(grep -E '^\+\s*(async )?fn [a-z0-9_]+\(\)' $D/demo.diff | sed -E 's/.*fn ([a-z0-9_]+)\(\).*/\1/' | sort -u)
+names=$(grep -E '^\+\s*(pub )?(async )?fn [a-z0-9_]+\(\)' $D/demo.diff | sed -E 's/.*fn ([a-z0-9_]+)\(\).*/\1/' | sort -u)
 [ -z "$names" ] && names="__no_test_found__"
 echo "demo tests: $names" > $OUT
 git apply $D/demo.diff || { echo "demo.diff does not apply" >> $OUT; exit 1; }
-r1=0; for n in $names; do cargo test --offline --lib $n > /tmp/confirm-$ID-$M-a.log 2>&1 || r1=1; grep -E "^test result" /tmp/confirm-$ID-$M-a.log | head -1 >> $OUT; done
+r1=0; for n in $names; do cargo test --offline $FEAT --lib $n > /tmp/confirm-$ID-$M-a.log 2>&1 || r1=1; grep -E "^test result" /tmp/confirm-$ID-$M-a.log | head -1 >> $OUT; done
 echo "demo_without_patch_exit=$r1 (want 0)" >> $OUT
 git apply $D/patch.diff || { echo "patch.diff does not apply on demo" >> $OUT; exit 1; }
-r2=0; for n in $names; do cargo test --offline --lib $n > /tmp/confirm-$ID-$M-b.log 2>&1 || r2=1; grep -E "^test result" /tmp/confirm-$ID-$M-b.log | head -1 >> $OUT; done
+r2=0; for n in $names; do cargo test --offline $FEAT --lib $n > /tmp/confirm-$ID-$M-b.log 2>&1 || r2=1; grep -E "^test result" /tmp/confirm-$ID-$M-b.log | head -1 >> $OUT; done
 echo "demo_with_patch_exit=$r2 (want 1)" >> $OUT
 git apply -R $D/demo.diff
 cargo test --workspace --no-fail-fast --offline > /tmp/confirm-$ID-$M-c.log 2>&1; r3=$?
+# the suite binds fixed UDP ports (11401, ...): a concurrent suite run elsewhere on the box makes one test fail with AddrInUse
+if [ $r3 != 0 ] && grep -q AddrInUse /tmp/confirm-$ID-$M-c.log; then sleep 20; cargo test --workspace --no-fail-fast --offline > /tmp/confirm-$ID-$M-c.log 2>&1; r3=$?; fi
 grep -E "^test result" /tmp/confirm-$ID-$M-c.log >> $OUT
+if [ -n "$FEAT" ] && [ $r3 = 0 ]; then cargo test --offline $FEAT --lib > /tmp/confirm-$ID-$M-d.log 2>&1; r3=$?; grep -E "^test result" /tmp/confirm-$ID-$M-d.log >> $OUT; fi
 echo "suite_with_patch_exit=$r3 (want 0)" >> $OUT
 git checkout -q -- . && git clean -fdq -e target
 if [ $r1 = 0 ] && [ $r2 = 1 ] && [ $r3 = 0 ]; then echo CONFIRMED >> $OUT; else echo NOT-CONFIRMED >> $OUT; fi
